@@ -100,7 +100,7 @@ def make_oracle(cfg, directory):
         hps, shape = make_space_dup(random.Random(cfg["space_seed"]))
     else:
         hps, shape = make_space(random.Random(cfg["space_seed"]), cfg["kind"])
-    obj = kt.Objective("score", cfg["direction"])
+    obj = kt.Objective(cfg.get("obj", "score"), cfg["direction"])
     common = dict(objective=obj, seed=cfg["seed"], hyperparameters=hps, max_retries_per_trial=cfg["max_retries"],
                   max_consecutive_failed_trials=cfg["max_consec"])
     k = cfg["kind"]
@@ -245,7 +245,7 @@ def run_history(cfg, outcome_mix=None, reload_p=0.04, reask_p=0.08, until_stoppe
                     st = rng.choice([0, 0, 0, 1, 2])
                     if negate:
                         v = -v
-                    o.update_trial(t.trial_id, {"score": v}, step=st)
+                    o.update_trial(t.trial_id, {cfg.get("obj", "score"): v}, step=st)
                     reported[tn] = True
                     ops.append(("update", int(t.trial_id), v, st)); obs.append((("none",), snapshot(o, d))); continue
                 held.pop(tn); r = rng.random()
